@@ -119,7 +119,18 @@ class TagGen:
 
     def enum(self):
         k = self.rng.randrange(2, 5)
-        return Type("ENUMERATED", items=[("e%d" % i, i * self.rng.choice([1, 3])) for i in range(k)])
+        base = self.rng.choice([0, 0, 0, -3, -50])
+        items = [("e%d" % i, base + i * self.rng.choice([1, 3])) for i in range(k)]
+        ext = None
+        if self.rng.random() < 0.4:
+            # additions ascend among themselves (X.680 20.4) and may lie anywhere relative to the root values;
+            # a collision with a root value is a duplicate the model reports
+            v = self.rng.choice([-40, -7, 1, max(x for _, x in items) + 1])
+            ext = []
+            for j in range(self.rng.randrange(0, 4)):
+                ext.append(("x%d" % j, v))
+                v += self.rng.randrange(1, 4)
+        return Type("ENUMERATED", items=items, ext_items=ext)
 
     def simple(self, kind=None):
         k = kind or self.rng.choice(SIMPLE)
